@@ -11,6 +11,7 @@ from typing import Dict, List, Optional, Set, Tuple
 
 from vlib import match, source
 from vlib.source import AnalysisError, call_name, dotted, last_attr, short
+from vlib.cfg import CFG, own_calls
 
 DOSINI = "python/experiment/model/frontends/dosini.py"
 
@@ -535,6 +536,88 @@ def check_stage_file_index(ctx, m) -> None:
                    "stage (index mod 10)" % why, construct="_discover_stages: %s = %s" % (idx, short(iv, 50)))
 
 
+def check_missing_not_none(ctx, m) -> None:
+    RID = "C19.R10-missing-is-not-the-text-None"
+    po = m.func("Dosini.parse_output")
+    do = m.func("Dosini._dump_output")
+    ctx.analysed(po)
+    ctx.analysed(do)
+    # accessors of the reader that answer None for a missing option: nested functions with an implicit / explicit `return None` path
+    accessors = set()
+    for f in ast.walk(po):
+        if isinstance(f, ast.FunctionDef) and f is not po:
+            rets = [r for r in ast.walk(f) if isinstance(r, ast.Return)]
+            falls = not isinstance(f.body[-1], ast.Return)
+            if falls or any(r.value is None or (isinstance(r.value, ast.Constant) and r.value.value is None) for r in rets):
+                accessors.add(f.name)
+    optional = set()
+    for a in source.walk_own(po, include_nested=False):
+        if isinstance(a, ast.Assign) and isinstance(a.value, ast.Call) and isinstance(a.value.func, ast.Name) and a.value.func.id in accessors \
+                and a.value.args and isinstance(a.value.args[0], ast.Constant):
+            optional.add(a.value.args[0].value)
+    ctx.floor(RID, len(optional), 1, "options of the [Output] section read with the None-when-missing accessor")
+    cfg = CFG(do)
+    n = 0
+    for nd in cfg.nodes:
+        if nd.kind != "stmt" or nd.ast is None:
+            continue
+        for c in own_calls(nd.ast):
+            if last_attr(c) == "set" and len(c.args) == 3 and isinstance(c.args[2], ast.Call) and call_name(c.args[2]) == "str" and c.args[2].args:
+                val = c.args[2].args[0]
+                # which keys does this write cover: a literal key, or a loop variable over a literal list
+                keys = set()
+                kx = c.args[1]
+                if isinstance(kx, ast.Constant):
+                    keys = {kx.value}
+                elif isinstance(kx, ast.Name):
+                    for lp in source.walk_own(do):
+                        if isinstance(lp, ast.For) and isinstance(lp.target, ast.Name) and lp.target.id == kx.id and isinstance(lp.iter, (ast.List, ast.Tuple)):
+                            keys |= {e.value for e in lp.iter.elts if isinstance(e, ast.Constant)}
+                if not (keys & optional):
+                    continue
+                n += 1
+                tests = match.test_nodes(cfg, lambda t, val=val: (
+                    ("F" if isinstance(match.compare_parts(t)[1], (ast.Is, ast.Eq)) else "T")
+                    if (match.compare_parts(t) and source.src(match.compare_parts(t)[0]) == source.src(val)
+                        and isinstance(match.compare_parts(t)[2], ast.Constant) and match.compare_parts(t)[2].value is None) else None))
+                ok = bool(tests) and match.only_via_edges(cfg, nd, tests)
+                ctx.ob(RID, c, ok,
+                       "%s is written only when it is not None" % short(val, 30) if ok else
+                       "_dump_output writes str(%s) for %s although parse_output stores None for an option the section does not have: "
+                       "'[Out] stages=stage0 data-in=A/x.csv:copy' is written with 'description = None', 'type = None' and reloaded as the "
+                       "strings 'None'" % (short(val, 30), sorted(keys & optional)),
+                       construct="_dump_output: str(%s) <- is not None" % short(val, 30))
+    ctx.floor(RID, n, 1, "writes of optional [Output] keys in _dump_output")
+
+
+def check_stage_files_contiguous(ctx, m) -> None:
+    RID = "C19.R11-one-stage-file-per-index"
+    ds = m.func("Dosini._discover_stages")
+    dc = m.func("Dosini._dump_components")
+    ctx.analysed(dc)
+    # the reader's requirement (so the rule follows the reader if it is relaxed): set(found) != set(range(n)) -> raise
+    requires = any(isinstance(t, ast.Compare) and any(isinstance(x, ast.Call) and call_name(x) == "range" for x in ast.walk(t))
+                   and any(isinstance(x, ast.Call) and call_name(x) == "set" for x in ast.walk(t))
+                   and any(isinstance(r, ast.Raise) for r in ast.walk(iff))
+                   for iff in source.walk_own(ds) if isinstance(iff, ast.If) for t in [iff.test])
+    loops = [lp for lp in source.walk_own(dc) if isinstance(lp, ast.For) and any(
+        isinstance(c, ast.Call) and last_attr(c) == "write" for c in ast.walk(lp)) and any(
+        isinstance(x, ast.Constant) and isinstance(x.value, str) and x.value.startswith("stage%d") for x in ast.walk(lp))]
+    ctx.floor(RID, len(loops), 1, "loops of _dump_components that write the stage files")
+    for lp in loops:
+        it = lp.iter
+        bound = match.resolve_local(dc, it.args[0]) if isinstance(it, ast.Call) and call_name(it) == "range" and len(it.args) == 1 else None
+        contiguous = bound is not None and any(isinstance(x, ast.Call) and call_name(x) in ("max", "len") for x in ast.walk(bound))
+        ok = contiguous or not requires
+        ctx.ob(RID, lp, ok,
+               "a stage file is written for every index below the highest stage" if contiguous else
+               ("the reader does not require contiguous stage files" if ok else
+                "_dump_components writes a stage file only for %s while _discover_stages requires the files 0..N-1: a stage without "
+                "components (its stage file holds only [META]) is skipped, the instance is written as stage0 + stage2 and cannot be "
+                "loaded ('Missing stage files (present: [0, 2])')" % short(it, 40)),
+               construct="_dump_components: for <stage> in range(<highest>+1)")
+
+
 def check_static_tables(ctx, m, cls) -> None:
     from vlib import state
     rule = "C19.R7-static-option-tables"
@@ -693,6 +776,10 @@ def run(ctx) -> None:
              "constants: anything else may be a %(Reference)s to a (case-sensitive) variable name")
     ctx.rule("C19.R9-stage-file-index", "the reader takes the WHOLE decimal index out of a stage file name (the writer prints 'stage%d'): "
              "a slice after the 'stage' prefix, or a regular-expression group that encloses the digit repetition")
+    ctx.rule("C19.R10-missing-is-not-the-text-None", "the [Output] keys the reader fetches with its None-when-missing accessor are written only when "
+             "their value is not None: str(None) comes back as the string 'None'")
+    ctx.rule("C19.R11-one-stage-file-per-index", "the reader requires the stage files 0..N-1 to be all present, so the writer's loop over the "
+             "stages runs over range(<highest stage>+1), not only over the stages that have components")
     ctx.rule("C19.R4-reader-without-writer", "options parsed but never written are exactly the frozen list")
 
     m = ctx.repo.module(DOSINI)
@@ -709,6 +796,8 @@ def run(ctx) -> None:
     all_known = set(known) | set(translate.keys())
     check_static_tables(ctx, m, cls)
     check_stage_file_index(ctx, m)
+    check_missing_not_none(ctx, m)
+    check_stage_files_contiguous(ctx, m)
     tmap = {k: v for k, v in translate.items() if v is not None}
 
     wt = extract_writer_table(ctx, m)
